@@ -18,7 +18,7 @@ Rows == ndJsonDeserialize(IOEnv.TRACE_FILE)
 VARIABLE i
 Init == i = 1 /\ TLCSet(1, 0)            \* register 1 counts the printed verdicts (the judge runs with ONE worker)
 R == Rows[i]
-ClsOrder == <<"plain", "lt", "amp", "quot", "apos", "rbr", "gt", "ws", "c0", "delc1", "esc", "lbr", "digit", "m",
+ClsOrder == <<"plain", "lt", "amp", "quot", "apos", "rbr", "gt", "ws", "c0", "c0ws", "delc1", "esc", "lbr", "digit", "m",
               "fffe", "astral", "nonascii">>
 RECURSIVE Pow2(_)
 Pow2(n) == IF n = 0 THEN 1 ELSE 2 * Pow2(n - 1)
